@@ -242,6 +242,40 @@ def reach_edge(rng, which):
     return o, dep, z, local + datetime.timedelta(days=rng.choice([-1, 0, 0, 1]))
 
 
+def repeated_hour(rng, k):
+    """(observer, zone, date): the event (kind k of gen_events) placed inside the repeated wall-clock
+    hour at the end of a daylight-saving period of an IANA zone — there `fold` tells two instants
+    apart, and anything that rebuilds the datetime from its fields or does arithmetic on it loses
+    that"""
+    from astral import Observer as _O
+    zamb, naive_utc = zones.ambiguous_instant(rng)
+    if zamb is None:
+        return None
+    target = naive_utc.replace(tzinfo=UTC) + datetime.timedelta(minutes=rng.uniform(-25, 25))
+    d = target.astimezone(zamb.tzinfo).date()
+    lat = rng.uniform(-50, 50) if k in (6, 7) else rng.uniform(-45, 45)
+    lon = rng.uniform(-180, 180)
+    f = {0: lambda o, dd: sun.dawn(o, dd, 6), 1: lambda o, dd: sun.dusk(o, dd, 6),
+         2: sun.sunrise, 3: sun.sunset,
+         4: lambda o, dd: sun.time_at_elevation(o, 6.0, dd, RISING),
+         5: lambda o, dd: sun.time_at_elevation(o, 6.0, dd, SETTING),
+         6: sun.noon, 7: sun.midnight}[k]
+    for _ in range(4):
+        best = None
+        for du in (-1, 0, 1):
+            st, t = call(f, _O(lat, lon, 0.0), d + datetime.timedelta(days=du))
+            if st == "ok":
+                gap = (target - t).total_seconds() / 60.0
+                if best is None or abs(gap) < abs(best):
+                    best = gap
+        if best is None:
+            return None
+        if abs(best) < 3:
+            break
+        lon = (lon - best / 4.0 + 180.0) % 360.0 - 180.0       # west = later
+    return _O(lat, lon, 0.0), zamb, d
+
+
 def gen_events(rng, n, tier="quick"):
     """dawn sunrise sunset dusk time_at_elevation noon midnight"""
     prev = None
@@ -284,7 +318,14 @@ def gen_events(rng, n, tier="quick"):
             if st0 == "ok":
                 z = zones.midnight_zone(rng, t0)
         dep = gens.rand_depression(rng)
-        if k < 4 and rng.random() < 0.08 and not isinstance(o.elevation, tuple):
+        fold_case = None
+        if k < 8 and rng.random() < 0.05:
+            fold_case = repeated_hour(rng, k)
+            if fold_case is not None:
+                o, z, d = fold_case
+                if k < 2:
+                    dep = 6.0
+        if fold_case is None and k < 4 and rng.random() < 0.08 and not isinstance(o.elevation, tuple):
             # a date that holds no such event in the zone (events step across local midnight)
             from astral import Observer as _O2
             o2 = _O2(rng.uniform(35.0, 64.0) * rng.choice([1, -1]), o.longitude, o.elevation) \
@@ -316,6 +357,8 @@ def gen_events(rng, n, tier="quick"):
             el = rng.choice([6.0, -6.0, -4.0, 0.0, rng.uniform(-20, 90), rng.uniform(-20, 30),
                              rng.uniform(90, 200)])
             di = rng.choice([RISING, SETTING])
+            if fold_case is not None:
+                el, di = 6.0, (RISING if k == 4 else SETTING)
             wr = rng.random() < 0.7
             st, v = call(sun.time_at_elevation, o, el, d, di, tz, wr)
             tags = (rematch_tag(v, d, z),) if st == "ok" and type(v) is datetime.datetime \
@@ -567,7 +610,26 @@ def gen_extreme(rng, n, tier="quick"):
                               lambda: sun.rahukaalam(o, d, day, tz), {"daytime": day}, tpair)
 
 
+def gen_builtin_noon(rng, n, tier="quick"):
+    """solar noon (and midnight) for every built-in location on dates spread over 1900-2100: the
+    property speaks of the noon computed for each record, and some records sit where the
+    hour/minute/second carries of the noon computation are taken (longitudes next to ±180)"""
+    import astral.geocoder as geo
+    from astral import Observer as _O
+    recs = list(geo.all_locations(geo.database()))
+    per = max(1, n // max(1, len(recs)))
+    z = zones.fixed(0)
+    for r in recs:
+        o = _O(r.latitude, r.longitude, 0.0)
+        for j in range(per * (10 if abs(r.longitude) > 170.0 else 1)):
+            d = datetime.date.fromordinal(rng.randint(gens.D1900, gens.D2100))
+            fn = "midnight" if j % 5 == 4 else "noon"
+            yield _event_case(rng, fn, o, d, z, "", (lambda fn=fn, o=o, d=d: getattr(sun, fn)(o, d, z.tzinfo)),
+                              {"record": "%s,%s" % (r.name, r.region)})
+
+
 GROUPS = {
+    "builtin_noon": gen_builtin_noon,
     "sun_extreme": gen_extreme,
     "sun_chain": gen_chain,
     "refraction": gen_refraction,
